@@ -28,8 +28,13 @@ echo "demo with change exit=$W (want !=0), without exit=$WO (want 0), suite exit
 grep "^--- FAIL\|^FAIL" /tmp/seed/$ID.suite.log | head -5
 mkdir -p /verif/seeded/$OUT && cp -r $WT/SEED/* /verif/seeded/$OUT/
 # 4. my check against it
+if [ -n "$SKIPCHECK" ]; then
+  # confirmation only (may run in parallel with others): the check is run afterwards by tools/seedrecheck.sh
+  : > /tmp/seed/$ID.check.log; C=-1
+else
 cd /verif && git -C /repo apply $WT/SEED/patch.diff && VERIF_NO_EVIDENCE=1 ./vf check $CHK quick > /tmp/seed/$ID.check.log 2>&1; C=$?
 git -C /repo checkout -- . ; git -C /repo status --short | head -3
+fi
 echo "check $CHK exit=$C"; grep -v "^KNOWN" /tmp/seed/$ID.check.log | grep "VIOLATION\|key=\|^C[0-9]\|BROKEN" | head -8
 python3 - "$ID" "$CHK" "$W" "$WO" "$S" "$C" "$OUT" <<'PY'
 import json,sys
